@@ -201,6 +201,36 @@ def run(report, tier, seed):
                     attempt(fname, f"{tuple(s)}, {kw}, spelling={spelling} [sweep]", [p], ci,
                             lambda: getattr(numpy, fname)(fa, **kw), approx=fname == "mean")
 
+    # ---- narrow coefficient dtypes whose elements fit but whose totals do not: numpy accumulates small integers and
+    #      booleans in the platform integer, and so must the polynomial reductions (the finite sum is the exact one)
+    for dt, vals in ((numpy.int8, [100, 90, -100, 77, 1]), (numpy.uint8, [200, 250, 1]), (numpy.int16, [30000, -30000, 150, 151]),
+                     (numpy.bool_, [True, True, False]), (numpy.int32, [2 ** 30, 2 ** 30 + 5, -(2 ** 30)])):
+        for s in ([4], [2, 3], [2, 2, 2]) if tier == "quick" else ([4], [5], [2, 3], [3, 2], [2, 2, 2]):
+            size = int(numpy.prod(s))
+            names = rng.choice([(0,), (0, 1), (2, 10)])
+            rows = [tuple(rng.choice([0, 1, 2]) for _ in names) for _ in range(2)]
+            rows = list(dict.fromkeys(rows))
+            cols = [numpy.array([rng.choice(vals) for _ in range(size)], dtype=dt).reshape(s) for _ in rows]
+            p = numpoly.polynomial_from_attributes(rows, cols, tuple(f"q{v}" for v in names))
+            fa = formal_array(p, 0)
+            nd = len(s)
+            for fname, kw in (("sum", {}), ("sum", {"axis": rng.randrange(-nd, nd)}), ("sum", {"axis": 0, "keepdims": True}),
+                              ("cumsum", {"axis": rng.randrange(nd)}), ("cumsum", {})):
+                spelling = rng.choice(["numpoly", "numpy", "method"] + (["reduce"] if fname == "sum" and "keepdims" not in kw else []))
+                ci = {"numpoly": lambda: getattr(numpoly, fname)(p, **kw), "numpy": lambda: getattr(numpy, fname)(p, **kw),
+                      "method": lambda: getattr(p, fname)(**kw), "reduce": lambda: numpy.add.reduce(p, **kw)}[spelling]
+                ref = (lambda: numpy.add.reduce(fa, **kw)) if spelling == "reduce" else (lambda: getattr(numpy, fname)(fa, **kw))
+                attempt(fname, f"{tuple(s)} {numpy.dtype(dt).name}, {kw}, spelling={spelling} [narrow]", [p], ci, ref)
+            if dt is numpy.int16 and len(s) == 2:
+                # entries whose pairwise products fit int16 (150 * 151 = 22650) while the row-times-column totals do not;
+                # constants, so that the products of coefficients are the only products
+                pm = numpoly.polynomial(numpy.array([rng.choice([150, 151, 149]) for _ in range(size)], dtype=dt).reshape(s)) \
+                    * numpoly.variable(dtype=numpy.int16)
+                qm = pm.T
+                fpm, fqm = formal_array(pm, 0), formal_array(qm, 1)
+                attempt("matmul", f"{tuple(s)} x {tuple(qm.shape)} int16 [narrow]", [pm, qm], lambda: numpoly.matmul(pm, qm),
+                        lambda: numpy.matmul(fpm, fqm))
+
     for _ in range(reps):
         # ---- sum / cumsum / mean ---------------------------------------------------------------
         for fname in ("sum", "cumsum", "mean"):
